@@ -24,15 +24,21 @@ theorem fresh_invariant (cfg : Cfg M) (L : List Folder) (hlaw : Lawful cfg) (his
   (history_spec hlaw hist w h0 hadm).2
 
 /-- Every `transfer_model` call of every admissible history returns (never raises) a model,
-    and that model is the compile of the sources, options and version current at the call. -/
-theorem transfer_correct (cfg : Cfg M) (L : List Folder) (hlaw : Lawful cfg) (hist : List Op)
+    and that model is the compile of the sources, options and version current at the call.
+    PARTIAL with respect to the property text: `Admissible` also demands that the calls of one
+    history name the same `library_folders` while that key is excluded from the option
+    comparison.  The missing part (histories that change `library_folders`) is false for the
+    code as it is — `libs_excluded_stale`, finding C20-F1 — and true once the key is compared
+    (`transfer_correct_libs_compared`). -/
+theorem transfer_correct_partial (cfg : Cfg M) (L : List Folder) (hlaw : Lawful cfg) (hist : List Op)
     (w : World M) (h0 : FreshInv cfg L w) (hadm : Admissible cfg L w hist) :
     AllCorrect cfg w hist :=
   (history_spec hlaw hist w h0 hadm).1
 
 /-- The same, spelled out for one call after an arbitrary admissible history that starts
-    without a cache file: the result equals `compile version (current sources) options`. -/
-theorem transfer_after_history (cfg : Cfg M) (L : List Folder) (hlaw : Lawful cfg)
+    without a cache file: the result equals `compile version (current sources) options`.
+    PARTIAL in the same sense (hypothesis `hl` / the library clause of `Admissible`). -/
+theorem transfer_after_history_partial (cfg : Cfg M) (L : List Folder) (hlaw : Lawful cfg)
     (fs : Folder → List SrcFile) (v : Nat) (hist : List Op)
     (hadm : Admissible cfg L ⟨fs, none, v⟩ hist) (o : Opts) (now size : Nat)
     (hm : o.norm.mtimeCheck = true) (hl : cfg.exclLibs = true → o.libs = L) :
@@ -68,7 +74,7 @@ def exHist : List Op :=
    .transfer (exOpts [1] "True") 11 120, .setVersion 2, .transfer (exOpts [1] "True") 12 120,
    .write 1 "K.mo" 13 30, .transfer (exOpts [1] "True") 14 130]
 
-theorem exLawful (b : Bool) : Lawful (exCfg b) := by
+example (b : Bool) : Lawful (exCfg b) := by
   intro n; by_cases h : n = 0 <;> simp [exCfg, convert, caughtClasses, h]
 
 -- the hypotheses of the theorems are satisfiable by a history that exercises hit, edit,
